@@ -65,6 +65,13 @@ v('c09-seek-before-write', 'break', ['C09'], W, ('        self.fp.write(header)\
 v('c09-header-after-write', 'break', ['C09'], W,
   ('        header = self._build_section_header(section, **header_options)\n\n        self._write_section_header(section, header)\n        self.fp.write(content)',
    '        self.fp.write(b\'\')\n        header = self._build_section_header(section, **header_options)\n\n        self._write_section_header(section, header)\n        self.fp.write(content)'))
+v('c02-no-space-after-colon', 'break', ['C02'], W, ("            header += b' ' + options_str.encode('ascii')", "            header += options_str.encode('ascii')"))
+v('c02-comma-without-space', 'break', ['C02'], W, ("        options_str = ', '.join(", "        options_str = ','.join("))
+v('c02-header-utf8', 'break', ['C02'], W, ("            header += b' ' + options_str.encode('ascii')", "            header += b' ' + options_str.encode('utf-8')"))
+v('c02-crlf-header', 'break', ['C02'], W, ("        return header + b'\\n'\n\n    def _write_section_header", "        return header + b'\\r\\n'\n\n    def _write_section_header"))
+v('c02-benign-single-format', 'benign', ['C02', 'C09', 'C01'], W,
+  ("        header = b'#%s:' % section.encode('ascii')\n\n        if options_str:\n            header += b' ' + options_str.encode('ascii')\n\n        return header + b'\\n'\n",
+   "        if options_str:\n            text = '#%s: %s\\n' % (section, options_str)\n        else:\n            text = '#%s:\\n' % section\n\n        return text.encode('ascii')\n"))
 v('c02-unsorted', 'break', ['C02'], W, ("for _key, _value in sorted(options.items(),\n                                       key=lambda pair: pair[0])", "for _key, _value in options.items()"))
 v('c02-json-indent', 'break', ['C02'], W, ('indent=4,\n                               separators', 'indent=2,\n                               separators'))
 v('c02-tab-indent', 'break', ['C02'], W, ("indent_str = b' ' * indent", "indent_str = b'\\t' * indent"))
